@@ -50,6 +50,8 @@ func (p *Prog) VerifyFunc(key string) (*VC, error) {
 	}
 	vc.safe = vc.contract.Safe
 	vc.privSlices = privateSlices(fi.Pkg.TypesInfo, fi.Decl.Body)
+	vc.privStructs = privateStructs(fi.Pkg.TypesInfo, fi.Decl.Type, fi.Decl.Body)
+	vc.privPtrs = privatePointers(fi.Pkg.TypesInfo, fi.Decl.Body)
 	prev := -1
 	for i := 0; i < 5 && len(vc.universe) != prev; i++ {
 		prev = len(vc.universe)
@@ -148,6 +150,48 @@ func (vc *VC) runPass() {
 			st.assume(app(SBool, "<=", sbase(v), Term{"alloc$base", SInt}))
 		}
 		vc.declareLocal(st, o, v)
+	}
+	if fi.Lit != nil && fi.Outer != nil {
+		// closure procedure: the closures of the enclosing function that this literal may call are
+		// known (they are inlined when called); every other variable of the enclosing function is
+		// captured by reference and holds an arbitrary value of its type on entry
+		tmp := &callFrame{info: info}
+		vc.prepareFrame(tmp, fi.Outer.Body, false)
+		for o, fl := range tmp.closures {
+			if fl != fi.Lit {
+				fr.closures[o] = fl
+			}
+		}
+		declOuter := func(id *ast.Ident) {
+			o, _ := info.Defs[id].(*types.Var)
+			if o == nil || o.IsField() || id.Name == "_" {
+				return
+			}
+			if id.Pos() >= fi.Lit.Pos() && id.Pos() < fi.Lit.End() {
+				return // the literal's own parameters and locals
+			}
+			if _, isClosure := fr.closures[o]; isClosure {
+				return
+			}
+			if _, done := st.vars[o]; done {
+				return
+			}
+			v := vc.fresh(id.Name, sortOfType(o.Type()))
+			st.assume(vc.rangeFact(o.Type(), v))
+			if v.Sort == SInt && !isBasicInt(o.Type()) && !namedIs(o.Type(), "time", "Time") && !isErrorType(o.Type()) {
+				st.assume(app(SBool, "<=", v, Term{"alloc$base", SInt}))
+			}
+			if v.Sort == SSlc {
+				st.assume(app(SBool, "<=", sbase(v), Term{"alloc$base", SInt}))
+			}
+			st.vars[o] = v
+		}
+		ast.Inspect(fi.Outer, func(n ast.Node) bool {
+			if id, ok := n.(*ast.Ident); ok {
+				declOuter(id)
+			}
+			return true
+		})
 	}
 	if fi.Decl.Recv != nil {
 		for _, f := range fi.Decl.Recv.List {
